@@ -51,10 +51,7 @@ fn run(budget: usize) -> (Result<usize, ()>, usize, usize) {
     unsafe { (r, O.state, O.passes) }
 }
 
-modelled! {
-    #[kani::unwind(9)]
-    #[kani::stub(customasm::asm::resolver::resolve_once, resolve_once_oracle)]
-    fn c09_a_budget_monotone() {
+fn budget_monotone(max_budget: usize) {
         unsafe {
             let mut s = 0;
             while s < NS {
@@ -70,7 +67,7 @@ modelled! {
         }
         let n: usize = kani::any();
         let m: usize = kani::any();
-        kani::assume(1 <= n && n < m && m <= 7);
+        kani::assume(1 <= n && n < m && m <= max_budget);
         let (r1, s1, p1) = run(n);
         let (r2, s2, p2) = run(m);
         if let Ok(k1) = r1 {
@@ -90,4 +87,14 @@ modelled! {
         }
         let _ = (p1, p2, s2);
     }
+
+modelled! {
+    #[kani::unwind(9)]
+    #[kani::stub(customasm::asm::resolver::resolve_once, resolve_once_oracle)]
+    fn c09_a_budget_monotone() { budget_monotone(7) }
+}
+modelled! {
+    #[kani::unwind(15)]
+    #[kani::stub(customasm::asm::resolver::resolve_once, resolve_once_oracle)]
+    fn c09_a_budget_monotone12() { budget_monotone(12) }
 }
